@@ -546,8 +546,8 @@ func updateWireLen(a *rAttrs, fam wFamily, as2, pathID bool) int {
 		pid = 4
 	}
 	if fam == famV4 {
-		n += attrLen(4)       // NEXT_HOP
-		n += pid + 1 + 3      // /24 NLRI
+		n += attrLen(4)  // NEXT_HOP
+		n += pid + 1 + 3 // /24 NLRI
 	} else {
 		n += attrLen(2 + 1 + 1 + 16 + 1 + pid + 1 + 6) // MP_REACH: afi safi nhlen nh reserved nlri(/48)
 	}
